@@ -56,3 +56,31 @@ Theorem C03_engine_previous_snapshot_intact : forall (st : Engine.db) (ops : lis
   EngineAbs.abs_bucket 16 (Engine.d_disk st') (Engine.d_root st) (Engine.d_next st) = EngineAbs.abs_db st.
 Proof. exact EngineCow.old_snapshot_intact. Qed.
 Print Assumptions C03_engine_previous_snapshot_intact.
+
+(* ==== the engine model WITH read transactions (coq/model/EngineR.v: a writer releases only the pending batches older than the
+   oldest open reader, as the library does: k = 0; k = 1 is the tightest safe choice, k = 2 is refuted): in every history of
+   transactions, reader begins and reader ends from the empty database, EVERY OPEN READER still finds every page of its snapshot
+   (tree runs with overflow pages, free-list run) byte-identical on the current disk, and its root still means the contents it
+   began on -- however many transactions committed meanwhile; and the current state is the reference's. ==== *)
+From Jamm Require Spec EngineR EngineReadersInv EngineReaders EngineReadersEx.
+Theorem C03_engine_snapshot_isolation : forall (k P : N) (es : list EngineR.hstep) (h' : EngineR.hstate),
+  (k <= 1)%N -> (0 < P)%N ->
+  EngineReaders.hist_ok k (Engine.init_db P, nil) es ->
+  EngineR.run_hist_k k (Engine.init_db P, nil) es = Engine.Ok h' ->
+  (forall r : EngineR.reader, In r (snd h') ->
+     (forall p : N, In p (EngineReaders.snap r) ->
+        Engine.dget (Engine.d_disk (fst h')) p = Engine.dget (Engine.d_disk r) p) /\
+     EngineAbs.abs_bucket 16 (Engine.d_disk (fst h')) (Engine.d_root r) (Engine.d_next r) = EngineAbs.abs_db r) /\
+  EngineReadersInv.db_okr (fst h') /\
+  EngineAbs.abs_db (fst h') = EngineReaders.sem_hist es (Spec.SBucket 0 0 nil).
+Proof. exact EngineReaders.snapshot_isolation_init. Qed.
+Print Assumptions C03_engine_snapshot_isolation.
+
+(* releasing one batch more (bound = oldest reader + 2) breaks a reader: computed history, negation of the statement *)
+Theorem C03_engine_release_bound_is_tight :
+  ~ (forall (es : list EngineR.hstep) (h h' : EngineR.hstate),
+       EngineReaders.HInv h -> EngineReaders.hist_ok 2 h es -> EngineR.run_hist_k 2 h es = Engine.Ok h' ->
+       forall r : EngineR.reader, In r (snd h') ->
+       EngineAbs.abs_bucket 16 (Engine.d_disk (fst h')) (Engine.d_root r) (Engine.d_next r) = EngineAbs.abs_db r).
+Proof. exact EngineReadersEx.ExReaders.snapshot_isolation_false_k2. Qed.
+Print Assumptions C03_engine_release_bound_is_tight.
